@@ -113,6 +113,21 @@ theorem C02_break_both_partial (F : Frame inpS inpW δ) (hcl : Closed inpS inpW 
       K d (breakOnEndOfInput inpS ms).1.x.sink (breakOnEndOfInput inpW mw).1.x.sink :=
   break_both F hcl h hP hsm hK
 
+/-- **Text debt is created** (the `eoc` case): `emit_text` run by the split run alone keeps the lexer
+registers related, the debt grows by the length of the text emitted early. -/
+theorem C02_text_debt_partial {d np : Nat} {ab ab' : Ab} {ls lw : LexRegs} (h : LexRel δ d ab np ls lw)
+    (hP : ab.P = true) (hn : ab'.noLex) :
+    LexRel δ (d + (np - 1 - ls.lexemeStart)) ab' np
+      (if np - 1 > ls.lexemeStart then { ls with lexemeStart := np - 1 } else ls) lw :=
+  h.emitTextSplitOnly hP hn
+
+/-- **`memchr` horizon**: scanning `xs ++ ys` after an unsuccessful scan of `xs` continues in `ys`. -/
+theorem C02_memchr_horizon (nd : UInt8) (xs ys : Bytes) :
+    findByte nd (xs ++ ys) = match findByte nd xs with
+      | some p => some p
+      | none => (findByte nd ys).map (· + xs.length) :=
+  findByte_append nd xs ys
+
 /-! ### Non-vacuity of the hypotheses
 
 The trivial sink (every operation succeeds, the tag sink asks for the lexer) satisfies `OpsSim` for every
